@@ -5,6 +5,7 @@ import (
 	"context"
 	"errors"
 	"fmt"
+	"math"
 
 	"github.com/iotaledger/hive.go/app/daemon"
 
@@ -278,6 +279,14 @@ func scenarios() []*sched.Scenario {
 		_ = w.add(wspec{name: "d", order: 1})
 		w.d.Start()
 		vrt.Settle()
+		w.shutdownAndWait()
+	})
+	// extreme priorities ("always first" / "always last"): orders whose difference does not fit an int
+	add("extreme-orders", false, func(w *world) {
+		_ = w.add(wspec{name: "last", order: math.MinInt})
+		_ = w.add(wspec{name: "api", order: 1, lateYields: 2})
+		_ = w.add(wspec{name: "first", order: math.MaxInt, lateYields: 1})
+		w.d.Start()
 		w.shutdownAndWait()
 	})
 	add("finish-and-reregister-vs-shutdown", true, func(w *world) {
